@@ -26,7 +26,7 @@ RULE = (
 ASSUMPTIONS = ["complete feeds: no baseline unit is absent from the feed", "bitwise comparison after casting numeric columns to float64"]
 FLOOR = {"quick": 20, "thorough": 120}
 
-COMPLETE_STATUSES = (gen.N, gen.N, gen.N, gen.N0, gen.NH, gen.Z, gen.ZN, gen.B, gen.BN, gen.T_HI, gen.T_LO)
+COMPLETE_STATUSES = (gen.N, gen.N, gen.N, gen.N0, gen.NH, gen.Z, gen.ZN, gen.B, gen.BN, gen.BZ, gen.BZN, gen.T_HI, gen.T_LO)
 
 
 def parts(tier):
